@@ -173,6 +173,40 @@ where
     (stats.into_inner().unwrap(), accs)
 }
 
+/// Sequential variant (no threads): same exploration order-independent coverage.
+pub fn explore_seq<O>(bound: usize, run: impl Fn(&Ch) -> O, mut check: impl FnMut(&[Point], O)) -> Stats {
+    let mut stats = Stats {
+        bound,
+        ..Default::default()
+    };
+    let mut stack: Vec<Vec<u32>> = vec![vec![]];
+    while let Some(prefix) = stack.pop() {
+        let ch = Chooser::new(prefix.clone());
+        let obs = run(&ch);
+        let trace = std::mem::take(&mut ch.borrow_mut().trace);
+        assert!(trace.len() >= prefix.len(), "MACHINERY: execution ended before its prefix was consumed");
+        let devs = trace.iter().filter(|p| p.chosen != 0).count();
+        stats.executions += 1;
+        stats.max_points = stats.max_points.max(trace.len());
+        if stats.by_deviations.len() <= devs {
+            stats.by_deviations.resize(devs + 1, 0);
+        }
+        stats.by_deviations[devs] += 1;
+        let cost = prefix.iter().filter(|c| **c != 0).count();
+        if cost + 1 <= bound {
+            for i in prefix.len()..trace.len() {
+                for alt in 1..trace[i].n {
+                    let mut p: Vec<u32> = trace[..i].iter().map(|x| x.chosen).collect();
+                    p.push(alt);
+                    stack.push(p);
+                }
+            }
+        }
+        check(&trace, obs);
+    }
+    stats
+}
+
 #[cfg(test)]
 mod t {
     use super::*;
@@ -192,6 +226,8 @@ mod t {
                 |_, _, _| {},
             );
             assert_eq!(st.executions, want, "bound {}", b);
+            let st2 = explore_seq(b, |ch| { for _ in 0..3 { pick(ch, 0, 3); } }, |_, _| {});
+            assert_eq!(st2.executions, want, "seq bound {}", b);
         }
     }
 }
